@@ -336,8 +336,9 @@ theorem luSolve_identity [IsStrictOrderedRing K] (n : ℕ) (b : List (List K)) (
   Geomdl.luSolve_identity n b hb
 
 /-- **The plain LU solver always returns a result for the spline collocation matrices of degree 1**:
-    `interpolate_curve(points, 1)` on an admissible input whose consecutive points are distinct returns, and the control
-    points are the data points. -/
+    `interpolate_curve(points, 1)` on an admissible input (`InterpCurveOk`: in particular data points that all have the
+    same number `≥ 2` of coordinates – on ragged or 1-D data the real routine raises before / after the solve) whose
+    consecutive points are distinct returns, and the control points are the data points. -/
 theorem interpolateCurve_degree_one_returns [IsStrictOrderedRing K] (pts : List (List K)) (cds : List K)
     (hg : Geomdl.InterpCurveOk 1 pts cds) (hpos : ∀ x ∈ cds, 0 < x) :
     ∃ cp, Geomdl.interpolateCurve 1 pts cds 1
@@ -610,7 +611,7 @@ example : (matrixPivot ([[1,2,0],[4,1,1],[2,7,3]] : List (List Rat))).mp = [[4,1
     matrixDeterminant ([[1,2,0],[4,1,1],[2,7,3]] : List (List Rat)) = -24 := by decide +kernel
 /-- degree-1 interpolation: the guard and the positivity hypothesis hold, the call returns the data points -/
 example : Geomdl.InterpCurveOk 1 ([[0,0],[1,2],[3,1]] : List (List ℚ)) [2, 3] ∧ ∀ x ∈ ([2, 3] : List ℚ), 0 < x :=
-  ⟨⟨le_refl _, by decide, by decide, by norm_num [Geomdl.sumL]⟩, by simp⟩
+  ⟨⟨le_refl _, by decide, by decide, by norm_num [Geomdl.sumL], 2, le_refl _, by simp⟩, by simp⟩
 example : Geomdl.interpolateCurve 1 ([[0,0],[1,2],[3,1]] : List (List Rat)) [2, 3] 1
     = some ([0, 0, 2/5, 1, 1], [[0,0],[1,2],[3,1]]) := by decide +kernel
 /-- a cache satisfying the invariant -/
